@@ -572,6 +572,9 @@ class Generator:
                 emit('}')
 
         emit('#![allow(unused_imports, unused_variables, unused_mut, dead_code, non_snake_case, unused_parens, unused_braces, unused_assignments, non_upper_case_globals, unreachable_code)]')
+        # `vec![..]` expands (rustc -Zunpretty=expanded) to liballoc-internal calls `::alloc::boxed::box_assume_init_into_vec_unsafe(..)`
+        emit('#![feature(liballoc_internals)]')
+        emit('extern crate alloc;')
         emit('use vstd::prelude::*;')
         emit('verus! {')
         emit_node(tree, 0)
